@@ -5,7 +5,10 @@
 //! then a seeded random stream (strings up to 24 bytes, patterns cut out of the subject), then malformed calls,
 //! then the robustness streams of FRAMEWORK.md (`robust`): sizes, zero-length axes, long strings / large widths, argument-shape
 //! combinations in every argument position, and part 2 (`robust2`): huge arrays, colliding shapes A–B–A, value fingerprints, refused-then-valid,
-//! exact lengths, aliasing, ranks 4..6.  `exec` runs EVERY case on both receivers (`Array<String>` and `Result<Array<String>, _>`), re-runs
+//! exact lengths, aliasing, ranks 4..6, and part 3 (`robust3`): look-alike pairs no rolling / sampled / symmetric hash tells apart (Thue–Morse words
+//! against their letter-swapped twin, one-position differences, anagram windows, birthday collisions of 23 weak hashes) through every substring
+//! operation, long common stems through the comparisons, giant arrays (`iota:` spelled, above 2^20 strings) judged by a native per-string
+//! reference that is compared with the model on every smaller case it covers (`refstats`).  `exec` runs EVERY case on both receivers (`Array<String>` and `Result<Array<String>, _>`), re-runs
 //! the previous case after every third one (A–B–A) and passes the receiver itself as second operand when both are spelled alike.
 use arrharness::*;
 
@@ -39,7 +42,18 @@ fn split_arr(s: &str) -> Option<(Vec<usize>, Vec<&str>)> {
     let (sh, el) = s.split_once(':')?;
     Some((parse_usize_list(sh), if el == "-" { vec![] } else { el.split(',').collect() }))
 }
+/// `iota:<shape>+<off>` names the array whose flat element k is `subj(k + off)`, `iotap:<shape>+<off>` the one of `pat(k + off)` — giant
+/// arrays (above 2^20 strings) are built here from the name and never written into a case line
+fn iota_arg(s: &str) -> Option<(bool, Vec<usize>, usize)> {
+    let (is_pat, rest) = if let Some(r) = s.strip_prefix("iotap:") { (true, r) } else { (false, s.strip_prefix("iota:")?) };
+    let (sh, off) = rest.split_once('+')?;
+    Some((is_pat, parse_usize_list(sh), off.parse().ok()?))
+}
 fn p_sarr(s: &str) -> Option<Array<String>> {
+    if let Some((is_pat, sh, off)) = iota_arg(s) {
+        let n: usize = sh.iter().product();
+        return Array::new((0..n).map(|k| if is_pat { pat(k + off) } else { subj(k + off) }).collect(), sh).ok();
+    }
     let (sh, el) = split_arr(s)?;
     Array::new(el.into_iter().map(unhex).collect::<Option<Vec<_>>>()?, sh).ok()
 }
@@ -182,6 +196,20 @@ fn run_alias(a: &Array<String>, op: &str) -> Option<String> {
 /// BOTH receivers on every case: the plain `Array<String>` call, the same call on `Ok(array)` through
 /// `impl … for Result<Array<String>, ArrayError>` (must give the same answer), and on an `Err(..)` receiver (must stay an error)
 fn exec_case(op: &str, args: &[&str], expected: &str) -> Option<Verdict> {
+    if is_giant(args) { return exec_giant(op, args, expected); }
+    // the native reference (used in place of the model on the giant cases) is compared with the model on every case it covers
+    if args.iter().map(|a| a.len()).sum::<usize>() <= 200_000 {
+        let t0 = std::time::Instant::now();
+        let nat = native_case(op, args);
+        REF_MICROS.fetch_add(t0.elapsed().as_micros() as usize, Relaxed);
+        if let Some(nat) = nat {
+            REF_VALIDATED.fetch_add(1, Relaxed);
+            if nat != expected {
+                REF_BROKEN.fetch_add(1, Relaxed);
+                return Some(Verdict::Mismatch { observed: "n/a".into(), detail: format!("HARNESS: the native reference says `{}`, the model `{}`", truncate(&nat, 300), truncate(expected, 300)) });
+            }
+        }
+    }
     let a = p_sarr(args.first()?)?;
     let plain = run(&a, op, args)?;
     let ok_recv: Result<Array<String>, ArrayError> = Ok(a.clone());
@@ -211,6 +239,14 @@ fn verdict_text(v: &Option<Verdict>) -> String {
 /// A–B–A: every third case B is followed by a re-run of the case A executed just before it; the crate must answer A exactly as it did
 /// the first time (a memo / cache that survives a call makes the answer depend on the call in between).
 fn exec(op: &str, args: &[&str], expected: &str) -> Option<Verdict> {
+    if op == "refstats" {
+        let (v, u, b) = (REF_VALIDATED.load(Relaxed), REF_USED.load(Relaxed), REF_BROKEN.load(Relaxed));
+        let text = format!("ok native reference (naive per-string search / count / comparison / class loops, applied position by position): compared with the model on {v} cases of this run ({b} disagreements), used in place of the model on {u} giant cases");
+        eprintln!("C17 {} (the comparisons took {:.1} s)", &text[3..], REF_MICROS.load(Relaxed) as f64 / 1e6);
+        if expected != "native" { return None; }
+        return Some(if b > 0 || (u > 0 && v < 1000) { Verdict::Mismatch { observed: text, detail: "the native reference was used without (enough) validation against the model in the same run".into() } } else { Verdict::Match(text) });
+    }
+    let t0 = std::time::Instant::now();
     let mut out = exec_case(op, args, expected);
     let seq = SEQ.with(|s| { let x = s.get() + 1; s.set(x); x });
     let prev = PREV.with(|p| p.borrow_mut().take());
@@ -226,10 +262,139 @@ fn exec(op: &str, args: &[&str], expected: &str) -> Option<Verdict> {
         }
     }
     // huge cases are not kept (the re-run would double their cost)
-    let keep = args.iter().map(|a| a.len()).sum::<usize>() <= 30_000;
+    let keep = args.iter().map(|a| a.len()).sum::<usize>() <= 30_000 && !is_giant(args);
     let text = verdict_text(&out);
+    // C17_SLOW=<ms>: report every case (its A-B-A re-run included) that took longer — the per-case watchdog is `hang_secs`
+    if let Some(ms) = std::env::var("C17_SLOW").ok().and_then(|v| v.parse::<u128>().ok()) {
+        if t0.elapsed().as_millis() >= ms { eprintln!("C17 slow case: {} ms  {} {}", t0.elapsed().as_millis(), op, truncate(&args.join(" "), 120)); }
+    }
     PREV.with(|p| *p.borrow_mut() = if keep { Some((op.to_string(), args.iter().map(|a| a.to_string()).collect(), expected.to_string(), text)) } else { None });
     out
+}
+
+// ------------------------------------------------------------------ native reference (giant cases), validated against the model
+
+use std::sync::atomic::{AtomicUsize, Ordering::Relaxed};
+static REF_VALIDATED: AtomicUsize = AtomicUsize::new(0);
+static REF_USED: AtomicUsize = AtomicUsize::new(0);
+static REF_BROKEN: AtomicUsize = AtomicUsize::new(0);
+static REF_MICROS: AtomicUsize = AtomicUsize::new(0);
+
+fn is_giant(args: &[&str]) -> bool { args.iter().any(|a| a.starts_with("iota")) }
+
+fn nat_find(s: &[u8], p: &[u8]) -> Option<usize> { if p.len() > s.len() { None } else { (0..=s.len() - p.len()).find(|&i| &s[i..i + p.len()] == p) } }
+fn nat_rfind(s: &[u8], p: &[u8]) -> Option<usize> { if p.len() > s.len() { None } else { (0..=s.len() - p.len()).rev().find(|&i| &s[i..i + p.len()] == p) } }
+fn nat_count(s: &[u8], p: &[u8]) -> usize {
+    if p.is_empty() { return s.len() + 1; }
+    let (mut i, mut c) = (0usize, 0usize);
+    while i + p.len() <= s.len() { if &s[i..i + p.len()] == p { c += 1; i += p.len(); } else { i += 1; } }
+    c
+}
+fn nat_trim(s: &[u8]) -> &[u8] { let mut n = s.len(); while n > 0 && s[n - 1] == b' ' { n -= 1; } &s[..n] }
+/// first differing byte decides; a proper prefix is smaller
+fn nat_cmp(a: &[u8], b: &[u8]) -> std::cmp::Ordering {
+    for i in 0..a.len().min(b.len()) { if a[i] != b[i] { return if a[i] < b[i] { std::cmp::Ordering::Less } else { std::cmp::Ordering::Greater }; } }
+    a.len().cmp(&b.len())
+}
+fn bit(b: bool) -> String { if b { "1".into() } else { "0".into() } }
+fn signed(o: Option<usize>) -> String { o.map_or("-1".to_string(), |i| i.to_string()) }
+const NATIVE_PAIR: &[&str] = &["count", "find", "rfind", "index", "rindex", "starts_with", "ends_with", "equal", "not_equal", "greater_equal", "less_equal", "greater", "less", "add"];
+const NATIVE_UNARY: &[&str] = &["str_len", "upper", "lower", "swapcase", "capitalize", "is_alpha", "is_alnum", "is_decimal", "is_numeric", "is_digit", "is_space", "is_lower", "is_upper"];
+
+/// what ONE position of the result must hold (in the wire form of `fmt`): plain loops over ASCII bytes, no call shared with the crate's implementation
+fn native_elem(op: &str, s: &str, p: &str) -> Option<String> {
+    if !s.is_ascii() || !p.is_ascii() { return None; }
+    let (sb, pb) = (s.as_bytes(), p.as_bytes());
+    let ord = || nat_cmp(nat_trim(sb), nat_trim(pb));
+    let letters = || sb.iter().filter(|c| c.is_ascii_alphabetic());
+    Some(match op {
+        "count" => nat_count(sb, pb).to_string(),
+        "find" | "index" => signed(nat_find(sb, pb)),
+        "rfind" | "rindex" => signed(nat_rfind(sb, pb)),
+        "starts_with" => bit(sb.len() >= pb.len() && &sb[..pb.len()] == pb),
+        "ends_with" => bit(sb.len() >= pb.len() && &sb[sb.len() - pb.len()..] == pb),
+        "equal" => bit(ord().is_eq()), "not_equal" => bit(ord().is_ne()), "greater_equal" => bit(ord().is_ge()),
+        "less_equal" => bit(ord().is_le()), "greater" => bit(ord().is_gt()), "less" => bit(ord().is_lt()),
+        "add" => hex(&format!("{s}{p}")),
+        "str_len" => sb.len().to_string(),
+        "upper" => hex(&sb.iter().map(|&c| if c.is_ascii_lowercase() { (c - 32) as char } else { c as char }).collect::<String>()),
+        "lower" => hex(&sb.iter().map(|&c| if c.is_ascii_uppercase() { (c + 32) as char } else { c as char }).collect::<String>()),
+        "swapcase" => hex(&sb.iter().map(|&c| if c.is_ascii_lowercase() { (c - 32) as char } else if c.is_ascii_uppercase() { (c + 32) as char } else { c as char }).collect::<String>()),
+        "capitalize" => hex(&sb.iter().enumerate().map(|(i, &c)| if i == 0 && c.is_ascii_lowercase() { (c - 32) as char } else { c as char }).collect::<String>()),
+        "is_alpha" => bit(!sb.is_empty() && sb.iter().all(|c| c.is_ascii_alphabetic())),
+        "is_alnum" => bit(!sb.is_empty() && sb.iter().all(|c| c.is_ascii_alphanumeric())),
+        "is_decimal" | "is_numeric" => bit(!sb.is_empty() && sb.iter().all(|c| c.is_ascii_digit())),
+        "is_digit" => bit(sb.len() == 1 && sb[0].is_ascii_digit()),
+        "is_space" => bit(!sb.is_empty() && sb.iter().all(|&c| (9..=13).contains(&c) || c == 32)),
+        "is_lower" => bit(letters().count() > 0 && letters().all(|c| c.is_ascii_lowercase())),
+        "is_upper" => bit(letters().count() > 0 && letters().all(|c| c.is_ascii_uppercase())),
+        _ => return None,
+    })
+}
+
+/// the second operand sits at flat position `k` of the result when it has the receiver's shape, at 0 when it is scalar-like (one element, rank
+/// not above the receiver's); other partner shapes are not covered by the reference
+fn partner_index(sa: &[usize], sb: &[usize]) -> Option<fn(usize) -> usize> {
+    if sa == sb { Some(|k| k) } else if sb.iter().all(|&d| d == 1) && sb.len() <= sa.len() && !sb.is_empty() { Some(|_| 0) } else { None }
+}
+
+/// the reference's answer to a whole (small) case, in the model's wire form — `None` where the reference does not apply
+fn native_case(op: &str, args: &[&str]) -> Option<String> {
+    let pair = NATIVE_PAIR.contains(&op);
+    if !(pair && args.len() == 2) && !(NATIVE_UNARY.contains(&op) && args.len() == 1) { return None; }
+    let a = p_sarr(args[0])?;
+    let (sa, ea) = (a.get_shape().ok()?, a.get_elements().ok()?);
+    if ea.is_empty() { return None; }
+    let elems: Vec<String> = if pair {
+        let b = p_sarr(args[1])?;
+        let (sb, eb) = (b.get_shape().ok()?, b.get_elements().ok()?);
+        let at = partner_index(&sa, &sb)?;
+        (0..ea.len()).map(|k| native_elem(op, &ea[k], &eb[at(k)])).collect::<Option<Vec<_>>>()?
+    } else { ea.iter().map(|s| native_elem(op, s, "")).collect::<Option<Vec<_>>>()? };
+    Some(format!("ok {}:{}", show_list(&sa), elems.join(",")))
+}
+
+/// compare a giant result with the reference IN PLACE: shape, length, then position by position; only the first differing position is printed
+fn judge_giant<T: ArrayElement>(r: &Result<Array<T>, ArrayError>, shape: &[usize], render: impl Fn(&T) -> String, want: &dyn Fn(usize) -> String) -> String {
+    match r {
+        Err(e) => format!("err {}", err_name(e)),
+        Ok(arr) => {
+            if !consistent(arr) { return "inconsistent-array".into(); }
+            let (sh, el) = (arr.get_shape().unwrap(), arr.get_elements().unwrap());
+            if sh != shape { return format!("shape {} instead of {}", show_list(&sh), show_list(shape)); }
+            for (k, e) in el.iter().enumerate() { let (got, w) = (render(e), want(k)); if got != w { return format!("flat position {k} of {}: `{}` instead of `{}`", el.len(), truncate(&got, 80), truncate(&w, 80)); } }
+            format!("ok giant {} positions agree with the native reference", el.len())
+        }
+    }
+}
+
+fn exec_giant(op: &str, args: &[&str], expected: &str) -> Option<Verdict> {
+    if expected != "native" { return None; }
+    let pair = NATIVE_PAIR.contains(&op);
+    if !(pair && args.len() == 2) && !(NATIVE_UNARY.contains(&op) && args.len() == 1) { return None; }
+    let a = p_sarr(args[0])?;
+    let b = if pair { p_sarr(args[1])? } else { Array::new(vec![String::new()], vec![1]).ok()? };
+    let (sa, ea, eb) = (a.get_shape().ok()?, a.get_elements().ok()?, b.get_elements().ok()?);
+    let at = if pair { partner_index(&sa, &b.get_shape().ok()?)? } else { |_| 0 };
+    let want = |k: usize| native_elem(op, &ea[k], &eb[at(k)]).unwrap_or_else(|| "?".into());
+    REF_USED.fetch_add(1, Relaxed);
+    // every third giant case goes through the Result receiver instead of the plain one
+    let chained = REF_USED.load(Relaxed) % 3 == 0;
+    macro_rules! go { ($call:expr, $render:expr) => {{ guarded(|| { let r = $call; judge_giant(&r, &sa, $render, &want) }) }} }
+    macro_rules! recv { ($m:ident $(, $x:expr)*) => { if chained { let r: Result<Array<String>, ArrayError> = Ok(a.clone()); r.$m($($x),*) } else { a.$m($($x),*) } } }
+    let hs = |s: &String| hex(s); let hb = |x: &bool| bit(*x); let hn = |x: &usize| x.to_string(); let hi = |x: &isize| x.to_string();
+    let observed = match op {
+        "count" => go!(recv!(count, &b), hn), "str_len" => go!(recv!(str_len), hn),
+        "find" => go!(recv!(find, &b), hi), "rfind" => go!(recv!(rfind, &b), hi), "index" => go!(recv!(index, &b), hi), "rindex" => go!(recv!(rindex, &b), hi),
+        "starts_with" => go!(recv!(starts_with, &b), hb), "ends_with" => go!(recv!(ends_with, &b), hb),
+        "equal" => go!(recv!(equal, &b), hb), "not_equal" => go!(recv!(not_equal, &b), hb), "greater_equal" => go!(recv!(greater_equal, &b), hb),
+        "less_equal" => go!(recv!(less_equal, &b), hb), "greater" => go!(recv!(greater, &b), hb), "less" => go!(recv!(less, &b), hb),
+        "add" => go!(recv!(add, &b), hs), "upper" => go!(recv!(upper), hs), "lower" => go!(recv!(lower), hs), "swapcase" => go!(recv!(swapcase), hs), "capitalize" => go!(recv!(capitalize), hs),
+        "is_alpha" => go!(recv!(is_alpha), hb), "is_alnum" => go!(recv!(is_alnum), hb), "is_decimal" => go!(recv!(is_decimal), hb), "is_numeric" => go!(recv!(is_numeric), hb),
+        "is_digit" => go!(recv!(is_digit), hb), "is_space" => go!(recv!(is_space), hb), "is_lower" => go!(recv!(is_lower), hb), "is_upper" => go!(recv!(is_upper), hb),
+        _ => return None,
+    };
+    Some(if observed.starts_with("ok giant") { Verdict::Match(observed) } else { Verdict::Mismatch { observed, detail: "the native reference (validated against the model on the smaller cases of this run) gives another result".into() } })
 }
 
 // ------------------------------------------------------------------ generation
@@ -502,6 +667,27 @@ fn gen(tier: &str, seed: u64, out: &mut dyn FnMut(String)) {
     robust2(thorough, seed, out, &mut late);
     // ---- part 3: values related in a way random data never is — look-alike pairs for the substring operations, long common stems for the comparisons
     robust3(thorough, out, &mut late);
+    // ---- (11) giant arrays: 2^20 < count <= 2.1 million short strings, named `iota:<shape>+<offset>` and built by the executor; the model driver
+    //      answers `native`, the executor judges them in place by the native reference that it compares with the model on every smaller case
+    {
+        let gs = giant_shapes();
+        let partner = |i: usize, s: &[usize]| -> String {
+            if i % 3 == 2 { format!("iotap:{}+{}", show_list(s), i) } else { format!("{}:{}", show_list(&vec![1; 1 + i % s.len().min(3)]), hex(["a", "-", "", "aa", "b"][i % 5])) }
+        };
+        if thorough {
+            for (i, op) in NATIVE_PAIR.iter().chain(NATIVE_UNARY.iter()).enumerate() {
+                for t in 0..2usize {
+                    let s = &gs[(i * 3 + t * 5) % gs.len()];
+                    if NATIVE_PAIR.contains(op) { out(format!("{op} iota:{}+{} {}", show_list(s), i + t, partner(i + 2 * t, s))); } else { out(format!("{op} iota:{}+{}", show_list(s), i + t)); }
+                }
+            }
+        } else {
+            for (i, (op, g)) in [("count", 0usize), ("find", 1), ("rindex", 3), ("ends_with", 4), ("less", 6), ("upper", 8)].into_iter().enumerate() {
+                let s = &gs[g];
+                if NATIVE_PAIR.contains(&op) { out(format!("{op} iota:{}+{} {}", show_list(s), i, partner(i, s))); } else { out(format!("{op} iota:{}+{}", show_list(s), i)); }
+            }
+        }
+    }
 
     // ---- replace, last (on the pinned tree some of these never return): alphabet {a,b,-}
     {
@@ -520,6 +706,8 @@ fn gen(tier: &str, seed: u64, out: &mut dyn FnMut(String)) {
             if !risky { for old in ["a", "ab", "-"] { pack_scalar(&subj.iter().map(|x| hex(x)).collect::<Vec<_>>(), out, &|a| format!("replace {a} 1:{} 1:{} none", hex(old), hex("b-"))); } }
         }
     }
+    // the last line of a run: how many times the native reference was compared with the model / used in its place
+    out("refstats".to_string());
 }
 
 // ------------------------------------------------------------------ robustness streams (FRAMEWORK.md)
@@ -1076,13 +1264,17 @@ fn rescans(s: &str, old: &str, new: &str) -> bool {
 }
 
 /// non-trivial: the subject array holds at least two distinct strings, one of them non-empty
-fn nontrivial(_op: &str, args: &[&str]) -> bool {
+fn nontrivial(op: &str, args: &[&str]) -> bool {
+    if op == "refstats" { return false; }
+    if is_giant(args) { return true; }
     let Some((_, el)) = args.first().and_then(|a| split_arr(a)) else { return false };
     let mut d: Vec<&str> = el.clone(); d.sort(); d.dedup();
     d.len() >= 2
 }
 
 fn main() {
-    harness_main(Spec { prop: "C17", gen, exec, nontrivial, hang_secs: 5,
-        rule: "exhaustive over the alphabet {a,b,A,B,0,1,space,-,comma,LF,CR}: one-argument operations on every string of length <=4 (quick <=3); two-argument operations on every (subject<=3 (quick <=2), pattern<=2) pair, split/rsplit limits 0..4; padding widths 0..6; replace on every (subject<=4 (quick <=3), old<=2, new<=2, count) over {a,b,-}; all packed into equal-shape arrays of rank 1..3 plus [1]-shaped scalar-like arguments; + seeded random strings up to 24 bytes with patterns cut from the subject; + non-broadcastable shapes; + robustness streams: both receivers (Array<String>, Ok(array) and Err(..) through the Result impls) on EVERY case, compare with &str/String/enum spellings, every operation on big_shapes() (axes 7..17, up to 4900 elements) and zero_shapes() with same-shape/[1]/trailing/unit-axis partners, long strings 257..301 bytes with self-overlapping patterns and widths/counts 255..1000, every pair/triple of argument shapes needing two-sided stretches in every argument position; part-2 streams: huge arrays of 16 385 ... 70 001 short strings ([130,127], [2,3,5000], [40,30,30] ...; thorough to 140 000) - all seven search operations against ONE pattern spelled [1] / [1,1] / [1,1,1] on every huge shape, a rotating share (thorough: all) of the other operations, array partners to 40 000, replace to 20 000 / 33 000; collision_shape_pairs A,B,A; anagram arrays and the same strings in five orders; refused-then-valid calls; A-B-A re-run of the previous case on every third case; every string length 1..130, 191, 255..257, 300 over seven alphabets ('Z' only, 'z' only, ...); every width 0..300; `a.op(&a)` with the very same object; ranks 4..6. distinct = distinct case lines; non-trivial = subject array with >=2 distinct strings" });
+    // per-case watchdog: the slowest cases are the giant arrays (1.0 - 1.5 s each at load 24 on 16 cores, ~3 s for 2 097 153 strings in the thorough
+    // tier; everything else stays below 0.35 s, the 2048-letter look-alikes below 0.1 s) — 40 s keeps a >= 20x margin on a loaded machine
+    harness_main(Spec { prop: "C17", gen, exec, nontrivial, hang_secs: 40,
+        rule: "exhaustive over the alphabet {a,b,A,B,0,1,space,-,comma,LF,CR}: one-argument operations on every string of length <=4 (quick <=3); two-argument operations on every (subject<=3 (quick <=2), pattern<=2) pair, split/rsplit limits 0..4; padding widths 0..6; replace on every (subject<=4 (quick <=3), old<=2, new<=2, count) over {a,b,-}; all packed into equal-shape arrays of rank 1..3 plus [1]-shaped scalar-like arguments; + seeded random strings up to 24 bytes with patterns cut from the subject; + non-broadcastable shapes; + robustness streams: both receivers (Array<String>, Ok(array) and Err(..) through the Result impls) on EVERY case, compare with &str/String/enum spellings, every operation on big_shapes() (axes 7..17, up to 4900 elements) and zero_shapes() with same-shape/[1]/trailing/unit-axis partners, long strings 257..301 bytes with self-overlapping patterns and widths/counts 255..1000, every pair/triple of argument shapes needing two-sided stretches in every argument position; part-2 streams: huge arrays of 16 385 ... 70 001 short strings ([130,127], [2,3,5000], [40,30,30] ...; thorough to 140 000) - all seven search operations against ONE pattern spelled [1] / [1,1] / [1,1,1] on every huge shape, a rotating share (thorough: all) of the other operations, array partners to 40 000, replace to 20 000 / 33 000; collision_shape_pairs A,B,A; anagram arrays and the same strings in five orders; refused-then-valid calls; A-B-A re-run of the previous case on every third case; every string length 1..130, 191, 255..257, 300 over seven alphabets ('Z' only, 'z' only, ...); every width 0..300; `a.op(&a)` with the very same object; ranks 4..6; part-3 streams: look-alike (pattern, subject) pairs of equal length for count/find/rfind/index/rindex/partition/rpartition/starts_with/ends_with/split/rsplit/replace/equality - Thue-Morse words of 2..2048 letters against their letter-swapped twin over a/b, 0/1, A/a (thorough 8 alphabets) and inside a common frame, texts of 33..1024 (thorough 31..2048) bytes equal except in one position (first/second/middle/9th from the end/last but one/last), anagram windows and equal-sum-and-xor words, birthday collisions of 10-letter words for 23 weak 32-bit hashes - the look-alike in eight surroundings of the pattern; long common stems 32,33,64,65,256,1024 (thorough 31..2048) of four kinds x every ordered pair of 9 (5) endings as prefix, infix and suffix, and every stem length 0..130, through the six comparisons, compare by name, starts_with, ends_with; giant arrays iota:<shape>+<off> of 1 048 581 ... 1 200 003 strings (thorough to 2 097 153; 6 cases quick, 54 thorough) judged in place by a native per-string reference that is compared with the model on every smaller case it covers (closing refstats line; fails if used with < 1000 comparisons). distinct = distinct case lines; non-trivial = subject array with >=2 distinct strings" });
 }
